@@ -25,8 +25,11 @@ Proof.
   split.
   - intros H. destruct (H 3 w1_graph w1_calls w1_calls_ok) as (H1 & _).
     destruct (H1 w1_sched 1) as (j & Hj).
-    destruct unguarded_refuted_root as (E & _). rewrite E in Hj.
-    destruct j as [|j]; cbn in Hj; [discriminate|]. inversion Hj.
+    destruct unguarded_refuted_root as (E & Es & _). rewrite E in Hj.
+    change (nth 1 w1_calls []) with [1%N] in Hj.
+    destruct j as [|j]; [discriminate Hj|].
+    change (firstn (S j) [1%N]) with (1%N :: firstn j []) in Hj. cbn [map] in Hj.
+    rewrite Es in Hj. discriminate Hj.
   - intros H. apply unguarded_has_race. apply H. exact w1_calls_ok.
 Qed.
 
@@ -40,7 +43,8 @@ Lemma no_other_state :
    ConcGen.codec_pkg_var_writers = [] /\ ConcGen.reflect_pkg_var_writers = [] /\ ConcGen.schema_pkg_var_writers = []) /\
   (only_calls ConcGen.reflector_methods = true /\ ConcGen.reflector_package_vars = []) /\
   (only_calls ConcGen.codec_methods = true /\ ConcGen.codec_package_vars = ["Global"%string]) /\
-  ConcGen.codec_entry_points = expected_codec_entry_points.
+  ConcGen.codec_entry_points = expected_codec_entry_points /\
+  ConcGen.schema_writers = expected_schema_writers.
 Proof.
-  exact (conj struct_fields_agree (conj package_vars_agree (conj reflector_stateless (conj codec_stateless codec_entry_points_agree)))).
+  exact (conj struct_fields_agree (conj package_vars_agree (conj reflector_stateless (conj codec_stateless (conj codec_entry_points_agree schema_writers_agree))))).
 Qed.
